@@ -70,8 +70,8 @@ def sim_stage(res, tier, seed, only=None):
                 if not v.startswith("REACHED"):
                     if v.startswith("STUCK"):
                         res.unknown.append(dict(case=case, monitor=v))
-                    else:
-                        res.violation("bytes written by the implementation do not lead to the fake", case, v)
+                    else:   # LANDED <addr>: control left the written bytes for an address that is not the fake; TIMEOUT: it never leaves
+                        res.violation("bytes written by the implementation lead somewhere else than the fake", case, v)
             else:
                 if v.startswith("RETURNED"):
                     rax = int(v.split("rax=")[1].split()[0], 16)
